@@ -36,6 +36,12 @@ def jobs(tier):
             for pre in (["false_region"], ["aborted_region"], ["self_first"]):
                 js.append(dict(name="%s/n4/after-%s" % (e.name, pre[0]), entry=e.name, backend="snarkjs",
                                cfg=dict(n=4, r=2, guard=None, bound=(1 << 64), prelude=pre), tier=tier, weight=2))
+    # error checking switched off (ignore_errors) on operands inside the documented domain: same values as with checking on
+    for e in CAT.build(4, "quick"):
+        if e.name in ("int_lt_ss", "int_le_ss", "int_gt_sc3", "int_ge_cs3", "int_abs", "int_floordiv_ss", "int_mod_sc3", "int_truediv_ss",
+                      "int_rshift_sc3", "int_to_bits_default", "int_and_ss", "sel_ite_cmp", "arr_read_s2"):
+            js.append(dict(name="%s/n4/plain+ignore" % e.name, entry=e.name, backend="snarkjs",
+                           cfg=dict(n=4, r=2, guard=None, bound=(1 << 64), ignore=True), tier=tier, weight=2))
     # selection through the block API and lazy branches: the final values are the ones native control flow gives
     from . import cat_c09
     for e in cat_c09.build(8, tier):
@@ -131,6 +137,21 @@ def run_job(env, spec, ref_in_body=False):
             if t.ref[0] != "ok":
                 observations += 1           # Python raises where the traced operation returned: recorded, not judged
                 continue
+            if job.cfg.get("ignore"):
+                # error checking off: nothing is claimed outside the documented domain (the library goes on with dummy
+                # hints there by design); inside it the values are the ones of plain Python, as with checking on
+                doms = []
+                if entry.dom is not None:
+                    d = entry.dom(kit)
+                    if d is not None:
+                        doms.append(H.T_bool(d))
+                b = spec.get("ignore_dom_bits")
+                if b:
+                    doms += [z3.And(v.t > -(1 << b), v.t < (1 << b)) for v in job.vals.values()]
+                if not doms:
+                    continue
+                facts = facts + doms
+                lin_facts = lin_facts + doms
             got = [leaf_value(o) for o in flat(t.result)]
             want = [x for x in flat(t.ref[1])]
             if len(got) != len(want):
@@ -197,8 +218,46 @@ def run_job(env, spec, ref_in_body=False):
                 inputs = H.model_inputs(m, job.vals)
                 job.finding("c05_raise", "in-domain inputs %s raise %r" % (inputs, t.path.exc),
                             dict(inputs=inputs), facts=facts, goal=dt, model=m)
+    boundary_points(env, job, entry)
     job.res["python_raises_traced_returns"] = observations
     return job.done()
+
+
+BOUNDARY_VALUES = [(1 << 53) + 1, (1 << 63) + 12345, (1 << 64) - 1, (1 << 127) - 1]
+
+
+def boundary_points(env, job, entry):
+    """supplement (not the deciding step): the entry is run on plain integers at a few large operand values inside its domain
+    (beyond a float's 53-bit mantissa, at 64 bits) and compared with its reference there.  The engine models Python floats
+    as reals, so a detour through float arithmetic is exact for it but not for CPython; a failure here is replayable."""
+    if entry.ref is None or not entry.ins or job.cfg.get("guard") is not None:
+        return
+    from symtrace.concrete import run_concrete
+    for V in BOUNDARY_VALUES:
+        inputs = {nm: V for nm in entry.ins}
+        kit = Kit(env, dict(inputs), job.cfg.get("n", 4), job.cfg.get("r", 2))
+        try:
+            if entry.assume is not None and not all(bool(c) for c in entry.assume(kit)):
+                continue
+            if entry.dom is not None and not bool(entry.dom(kit)):
+                continue
+        except Exception:
+            continue
+        out = run_concrete(env, entry, dict(job.cfg, want_ref=True), inputs)
+        if out["outcome"] != "ok":
+            if entry.dom is not None and not job.cfg.get("ignore"):
+                job.obligation("sat")
+                job.finding("c05_raise", "in-domain inputs %s raise %r" % (inputs, out["exc"]), dict(inputs=inputs))
+            continue
+        if out["ref"] is None or out["ref"][0] != "ok":
+            continue
+        got = [leaf_value(o) for o in flat(out["result"])]
+        want = list(flat(out["ref"][1]))
+        bad = len(got) != len(want) or any(int(g) != int(w) for g, w in zip(got, want))
+        job.obligation("sat" if bad else "unsat")
+        if bad:
+            job.finding("c05_value", "traced values %s, Python gives %s on %s" % (got[:4], want[:4], inputs),
+                        dict(inputs=inputs, shape=(len(got) != len(want))))
 
 
 def main(argv):
